@@ -50,6 +50,7 @@ def run(ctx):
     ctx.rule("V1", "who-may-call convert_scalar_strings_to_text + edge dominance by string_migration == ConvertToText")
     ctx.rule("V2", "must-pass-through: on the ConvertToText edge every Ok return passes through the conversion; Ok returns not behind the option test carry a fresh empty document")
     ctx.rule("V3", "control dependence and provenance of the recorded conversions (Put, Str, visible_slow(None), not Text objects)")
+    ctx.rule("V5", "convert_scalar_strings_to_text: a conversion is recorded only on the true edge of OpSet::object_exists for the object that holds the string (strings under a deleted object are not visible)")
     ctx.rule("V4", "provenance of put_object / splice_text operands; commit on every Ok path")
     f = ctx.facts()
     from .. import callgraph
@@ -151,6 +152,9 @@ def run(ctx):
                 d = cb.single_def(src["origin"][0])
                 if d and d[1] == "t" and ((norm_fn(d[2].get("fn")) or "").endswith("Iterator::next") or (callee(d[2]) or "").endswith("OpSet::seek_list_opid")):
                     continue
+            # ... and on whether the object that holds the string can still be reached (V5)
+            if src and src["kind"] == "call" and (norm_fn(src["callee"]) or "").endswith("OpSet::object_exists"):
+                continue
             bad.append(util.where(cb, sb))
         ctx.ob("V3", k + "|every visible string is recorded", not bad, t["sp"], "depends only on the op / value / object kind, the position lookup and the loops" if not bad else
                "recording a visible string is skipped under a further condition (%s): that string stays a scalar, or a conflicting value is dropped from the migration" % bad)
@@ -203,6 +207,7 @@ def run(ctx):
         bad = [o for o in coks if o in reach]
         ctx.ob("V4", k + "|committed on every Ok path", bool(commits) and not bad, t["sp"], "commit precedes Ok" if commits and not bad else
                "Ok can be returned with the conversion transaction dropped (rolled back): the strings stay")
+    check_object_exists(ctx, ctx.facts())
 
 
 def is_none(b, op):
@@ -220,3 +225,17 @@ def is_unit_variant(b, op, adt, variant):
     pl = op.get("c") or op.get("m")
     d = b.single_def(pl["l"]) if pl else None
     return bool(d and d[1] != "t" and d[2]["rv"]["k"] == "Agg" and d[2]["rv"].get("adt") == adt and d[2]["rv"].get("variant") == variant)
+
+
+def check_object_exists(ctx, f):
+    CV = [p for p in f.fns if norm_fn(p) == "automerge::automerge::Automerge::convert_scalar_strings_to_text"]
+    if len(CV) != 1:
+        raise facts.AnchorMissing("Automerge::convert_scalar_strings_to_text")
+    b = cfg.body(f.fns[CV[0]])
+    exists = cfg.cond_edges(b, atom_call=lambda t: (callee(t) or "").endswith("op_set::OpSet::object_exists"))
+    recs = [(bi, t) for bi, t in b.calls() if (norm_fn(t.get("fn")) or "").endswith("Vec::push") and "Conversion" in " ".join(t.get("argtys", []))]
+    ctx.floor("recorded conversions", len(recs), 1)
+    for k, (bi, t) in util.ordinal_keys(recs, lambda it: "convert|record|object still exists"):
+        ok = any(b.edges_dominate([e], bi) for e in exists)
+        ctx.ob("V5", k, ok, t["sp"], "only for objects that can still be reached from the root" if ok else
+               "strings are converted in every object ever created, also deleted ones: a document with no visible string gets a migration change (and new heads) on load")
